@@ -312,11 +312,24 @@ def case_kernprof(c, root):
     live_txt = os.path.join(d, 'live_%d.txt')
     tail = SCRIPT_TAIL % dict(prof_expr='profile', live=live, live_kw=[kw_of(o['opts']) for o in c.get('live', [])],
                               live_txt=live_txt)
-    with open(path, 'w', encoding='utf-8') as fh:
-        fh.write(src + '\n' + calls + '\n' + tail)
-    outfile = os.path.join(d, c.get('lprof_name', 'res.lprof'))
     k = c['kernprof']
+    head = ''
+    if k.get('stdout_left'):
+        # the program rebinds sys.stdout and ends without restoring it: 'tee' = an object of a helper module
+        # (auto-profiled through -p, so its methods are registered) that forwards to the real stdout,
+        # 'swallow' = a StringIO
+        with open(os.path.join(d, 'c11teemod.py'), 'w') as fh:
+            fh.write('import sys\nclass Tee:\n    def __init__(self):\n        self.n = 0\n    def write(self, s):\n'
+                     '        self.n += 1\n        return sys.__stdout__.write(s)\n    def flush(self):\n        sys.__stdout__.flush()\n'
+                     'def make():\n    t = Tee()\n    t.write("")\n    return t\n')
+        head = 'import sys, io\nimport c11teemod\n_tee = c11teemod.make()\n'
+        tail += ('\nsys.stdout = _tee\n' if k['stdout_left'] == 'tee' else '\nsys.stdout = io.StringIO()\n')
+    with open(path, 'w', encoding='utf-8') as fh:
+        fh.write(head + src + '\n' + calls + '\n' + tail)
+    outfile = os.path.join(d, c.get('lprof_name', 'res.lprof'))
     argv = [PY, '-m', 'kernprof', '-l', '-o', outfile]
+    if k.get('stdout_left'):
+        argv += ['-p', 'c11teemod']
     if k['view']:
         argv.append('-v')
     if k['u'] is not None:
@@ -337,6 +350,8 @@ def case_kernprof(c, root):
     out = []
     first, _, rest = so.partition('\n')
     res['wrote_line'] = first
+    if not first.startswith('Wrote profile results to '):
+        rest = so                      # the announcement went to whatever the program left as sys.stdout
     if k['view']:
         out.append(dict(chan=k['chan'], text=rest, ref_opts=k['ref_opts']))
     else:
